@@ -4,6 +4,7 @@ Synchronous Policy class - unified resilience container.
 Uses shared helpers from execution.py for circuit breaker integration.
 """
 
+import asyncio
 from collections.abc import Callable
 from typing import Any
 
@@ -102,6 +103,10 @@ class Policy:
                 record_success(ctx)
                 return result
 
+            except asyncio.CancelledError:
+                # Never classified, even when the class also derives from Exception;
+                # ensure_settled() records the cancel.
+                raise
             except (KeyboardInterrupt, SystemExit):
                 record_cancel(ctx)
                 raise
@@ -282,6 +287,10 @@ class Policy:
                 on_attempt_end=on_attempt_end,
                 capture_timeline=capture_timeline,
             )
+        except (asyncio.CancelledError, KeyboardInterrupt, SystemExit):
+            # Never classified, even when the class also derives from Exception;
+            # execute()'s ensure_settled() records the cancel.
+            raise
         except RetryExhaustedError as exc:
             # Propagating errors are recorded exactly as call() records them.
             self._handle_exhausted_call(ctx, exc)
@@ -335,6 +344,10 @@ class Policy:
                     )
                 )
             return build_aborted_outcome(ctx, attempts=1 if invoked else 0)
+
+        except asyncio.CancelledError:
+            # Never classified; ensure_settled() records the cancel.
+            raise
 
         except (KeyboardInterrupt, SystemExit):
             record_cancel(ctx)
